@@ -470,13 +470,32 @@ def run_workload(ch: Choices, variant: str, callers: List[List[dict]], uploads_s
     for r in recs:
         by_caller.setdefault(r.caller, []).append(r)
 
+    shared_headers: Dict[int, Dict[str, str]] = {}
+    attempt_counter: Dict[str, int] = {}
+
+    def nonce_for(cap):
+        """Requests sent with a caller's shared headers object carry no per-call nonce: the k-th request of a caller
+        (callers issue their calls one after another) belongs to its k-th call."""
+        who = cap.header("x-sim-caller")
+        if who is None or not who[1:].isdigit():
+            return None
+        k = attempt_counter.get(who, 0)
+        attempt_counter[who] = k + 1
+        lst = by_caller.get(int(who[1:]), [])
+        return lst[k].nonce if k < len(lst) else None
+
     def prep(rec: CallRec, N: Names):
         q, op, variables, args, objs = call_inputs(rec.spec, N, uploads_spec)
         rec.inputs = (q, op, variables, objs)
         kw = {}
         skw = rec.spec["kw"]
-        headers = dict(skw.get("headers") or {})
-        headers["X-Sim-Nonce"] = rec.nonce
+        if sched_knobs.get("shared_headers"):
+            # realistic usage: one headers dict object (auth headers) passed to every call of a caller
+            headers = shared_headers.setdefault(rec.caller, {"X-Sim-Caller": "c%d" % rec.caller, "X-Shared": "s"})
+            rec.headers_before = dict(headers)
+        else:
+            headers = dict(skw.get("headers") or {})
+            headers["X-Sim-Nonce"] = rec.nonce
         kw["headers"] = headers
         for k in ("timeout", "follow_redirects", "extensions"):
             if k in skw:
@@ -487,6 +506,7 @@ def run_workload(ch: Choices, variant: str, callers: List[List[dict]], uploads_s
         loop = SimLoop(ch, step_cap=300_000, time_cap=100_000.0)
         asyncio.set_event_loop(loop)
         server = server_factory(loop.next_seq, lambda label: sched_knobs["lat"](ch, label))
+        server.nonce_for = nonce_for
         try:
             with deterministic_gc(), seeded_world(ch, clock=loop.time):
                 client, N = build_client(variant, own_transport, server)
@@ -554,6 +574,7 @@ def run_workload(ch: Choices, variant: str, callers: List[List[dict]], uploads_s
         seqc = itertools.count(1)
         next_seq = (sched.next_seq if sched else (lambda: next(seqc)))
         server = server_factory(next_seq, lambda label: 0.0)
+        server.nonce_for = nonce_for
         yp = sched.yield_point if sched else None
         with seeded_world(ch, clock=None):
             client, N = build_client(variant, own_transport, server, yp)
@@ -595,6 +616,7 @@ def run_workload(ch: Choices, variant: str, callers: List[List[dict]], uploads_s
                 client.http_client.close()
             except Exception:
                 pass
+    info["shared_headers_after"] = {k: dict(v) for k, v in shared_headers.items()}
     return recs, server, info
 
 
